@@ -1,7 +1,7 @@
 (* Model driver for vita::fitness_t (C18).
    input : <A> <B> <scalar hex> <accuracy A hex> <accuracy B hex>
            A, B = comma separated 64-bit patterns, or - for the empty fitness
-   output: lt eq gt ge le ne dom mm nanA finA plus minus times divs muls abs sqrt round dist comb
+   output: lt eq gt ge le ne dom mm nanA finA plus minus times divs muls abs sqrt round dist comb small nonneg ae aes
            (booleans 0/1; vectors as the input; X = contract (Expects) not met) *)
 let f64_of_hex h = F64.of_bits (z_of_hex h)
 let hex_of_f64 f = hex_of_z (F64.to_bits f)
@@ -31,7 +31,10 @@ let () =
             show_vec (div_scalar a s); show_vec (mul_scalar a s);
             show_vec (vabs a); show_vec (vsqrt a); show_vec (round_to a);
             (match distance a b with None -> "X" | Some d -> hex_of_f64 d);
-            show_vec (combine_fit a b) ] in
+            show_vec (combine_fit a b);
+            b2s (vissmall a); b2s (visnonnegative a);
+            (match valmost_equal a b default_ae_epsilon with None -> "X" | Some v -> b2s v);
+            (match valmost_equal a b s with None -> "X" | Some v -> b2s v) ] in
           print_endline (String.concat " " out)
       | _ -> print_endline "BADLINE"
     done
